@@ -185,6 +185,21 @@ P = {
        "scripts compared before/after. Known findings D6, D7 are listed in known_findings.json.",
   note=TB + "HashesOK (hash outputs ≤ 520 bytes) is a hypothesis; OpenSSL's tolerant DER parsing is outside the model (domain restriction of the property).",
   tech="Lean 4 proof (dead-branch / invariant by induction over interpreter steps) + correspondence on arbitrary byte strings"),
+ 'C05': dict(
+  text="Lean theorems. Commitment table, exact, for all transactions: two transactions that agree on every part the "
+       "hash type commits to have the same legacy digest (agree_sighash_eq, uncommitted_edit_preserves — no "
+       "hypothesis); a committed edit that changes a committed part changes the hashed message "
+       "(committed_edit_changes, from injectivity of the wire encoding = C01's round trip) and hence the digest under "
+       "the explicit collision-resistance hypothesis. Closed-form verdicts of the C06 interpreter model on P2PK, "
+       "P2PKH, bare m-of-n (1 ≤ m ≤ n ≤ 20: accepted iff the signatures match a subsequence of the keys in order) and "
+       "their P2SH wrappings with the signature check abstract (template_accepts_*, template_rejects_wrong_key_*), "
+       "and verdict-under-edit theorems (uncommitted edit: same verdict, no assumption; committed edit: rejected, "
+       "given collision resistance and signature uniqueness). PARTIAL by nature: ECDSA correctness/unforgeability and "
+       "SHA-256d collision resistance are hypotheses. Tied end to end: spends of every template are signed with the "
+       "library, verified by VerifyScript and by the model with the Lean ECDSA, then every single edit of the "
+       "catalogue is applied and impl = model = table prediction is required.",
+  note=TB + "Cryptographic half (unforgeability, collision resistance) is assumed, never an axiom; OpenSSL signing is covered by the run.",
+  tech="Lean 4 proof (commitment table via encoding injectivity; symbolic evaluation of the interpreter model on templates) + end-to-end sign/verify/edit correspondence"),
 }
 
 REASON_PENDING = "check under construction in this build round (model/theorems not yet merged); see DESIGN.md §10/§11"
